@@ -98,7 +98,9 @@ func (e *Enc) eval(sc *Scope, x CExpr, hint types.Type) Val {
 				return e.evalLit(&CLit{l.Kind, "-" + l.Val}, hint)
 			}
 			v := e.eval(sc, n.X, hint)
+			e.specEval++
 			r := e.neg(v, v.Typ, True, token.NoPos)
+			e.specEval--
 			r.Typ = v.Typ
 			return r
 		case "^":
@@ -813,6 +815,15 @@ func (e *Enc) evalCall(sc *Scope, n *CCall, hint types.Type) Val {
 			// since the region (loop iteration / function) was entered
 			nm := n.Args[0].String()
 			return Val{Typ: types.Typ[types.Bool], L: []T{e.heapGet(sc.st, "!called|"+nm, BoolS)}}
+		case "ncalls":
+			// ncalls(Name): how many calls of a function or method with this name happened on the
+			// current path since the region was entered (a mathematical integer)
+			nm := n.Args[0].String()
+			t := e.heapGet(sc.st, "!ncalls|"+nm, IntS)
+			if e.idxSort().K == SBV {
+				t = e.intToBV(t, 64)
+			}
+			return Val{Typ: types.Typ[types.Int], L: []T{t}}
 		case "len", "cap":
 			v := e.eval(sc, n.Args[0], nil)
 			switch ut := v.Typ.Underlying().(type) {
